@@ -19,7 +19,7 @@ RULE = ("cases: random clamped shapes (curve/surface/volume, rational or not, no
 ASSUMPTIONS = ["nvmon.ref exact reference model", "explored domain of DESIGN.md section 3; tolerance 1e-9*scale"]
 FLOORS = {'quick': {'refine': 150, 'probe-lib': 2000, 'probe-defn': 2000, 'structure': 150, 'untouched': 60, 'helper': 60},
           'thorough': {'refine': 2000, 'probe-lib': 30000}}
-MANDATORY_TAGS = ['large', 'pdim1', 'pdim2', 'pdim3', 'rational', 'density2', 'density3', 'dirs:partial', 'dirs:all', 'helper:knot_list',
+MANDATORY_TAGS = ['helper:add-knot-0.0', 'helper:listed-knot-twice-one-ulp-apart', 'large', 'pdim1', 'pdim2', 'pdim3', 'rational', 'density2', 'density3', 'dirs:partial', 'dirs:all', 'helper:knot_list',
                   'helper:add_knot_list', 'unnormalized', 'helper:single-knot-list', 'helper:knot_list+add_knot_list', 'helper:tuple-kv', 'unclamped', 'short-knot-range']
 TECHNIQUE = ("runtime monitoring: exact reference-model oracle + structural knot-vector oracle after every refine_knotvector / "
              "knot_refinement call of a seeded workload")
@@ -182,7 +182,7 @@ def check_helper(case, ctx):
     p = rng.randint(1, 5)
     n = p + 1 + rng.randint(0, 5)
     U = G.knot_vector(rng, p, n, 'bezier' if n == p + 1 else rng.choice(['uniform', 'random', 'fullmult']),
-                      rng.choice([(0.0, 1.0), (0.0, 1.0), (2.0, 5.0)]))
+                      rng.choice([(0.0, 1.0), (0.0, 1.0), (2.0, 5.0), (-1.0, 1.0)]))
     dim = rng.choice([2, 3, 4])
     rows = rng.random() < 0.3
     if rows:
@@ -190,6 +190,8 @@ def check_helper(case, ctx):
     else:
         P = [[rng.uniform(-10, 10) for _ in range(dim)] for _ in range(n)]
     mode = rng.choice(['default', 'knot_list', 'add_knot_list'])
+    if U[0] < 0.0 and rng.random() < 0.7:
+        mode = 'add_knot_list'
     density = rng.choice([1, 1, 2])
     a, b = U[p], U[n]
     kw = {'density': density}
@@ -212,6 +214,7 @@ def check_helper(case, ctx):
     ctx.tag('helper:' + mode, 'density%d' % density)
     import math as _m
     midpoint_case = False
+    single_ = False
     inner_ = sorted(set(k for k in U[p + 1:n] if a < k < b))
     if mode == 'add_knot_list' and inner_ and rng.random() < 0.3:
         # the caller's own arithmetic for an existing knot (0.1 + 0.2 for the knot 0.3): one ulp beside it - it IS that knot
@@ -232,7 +235,26 @@ def check_helper(case, ctx):
         v = rng.choice(kw['knot_list'])
         kw['knot_list'] = [v] * rng.randint(1, 2)
         knot_list = [v]
+        single_ = True
         ctx.tag('helper:single-knot-list')
+    if mode == 'add_knot_list' and a < 0.0 < b and all(abs(k) >= 0.02 * (b - a) for k in U) and rng.random() < 0.6:
+        # (fifth hunt) the additional knot is 0.0, handed over as a list, a tuple or a one-element numpy array (whose truth value is False)
+        try:
+            import numpy as _np
+            form = rng.choice([list, tuple, _np.array, _np.array])
+        except ImportError:
+            form = rng.choice([list, tuple])
+        kw['add_knot_list'] = form([0.0])
+        knot_list = sorted(set(base + [0.0]))
+        ctx.tag('helper:add-knot-0.0', 'helper:add-knot-0.0:' + form.__name__)
+    elif mode in ('add_knot_list', 'knot_list') and not midpoint_case and not single_ and rng.random() < 0.25:
+        # (fifth hunt) a NEW knot listed twice, the second time as the caller's arithmetic gives it (one ulp beside): it is one knot
+        key_ = 'add_knot_list' if mode == 'add_knot_list' else 'knot_list'
+        v_ = rng.choice([x for x in kw[key_] if all(abs(x - k) >= 4e-3 * (b - a) for k in U)] or [None])
+        if v_ is not None:
+            twin = _m.nextafter(v_, rng.choice([-_m.inf, _m.inf]))
+            kw[key_] = list(kw[key_]) + [twin] if rng.random() < 0.5 else [twin] + list(kw[key_])
+            ctx.tag('helper:listed-knot-twice-one-ulp-apart')
     if mode == 'add_knot_list' and rng.random() < 0.4:
         # base list given explicitly (as list or tuple) together with additional knots
         kw['knot_list'] = rng.choice([list, tuple])(base)
